@@ -238,3 +238,108 @@ func TestC18OraclePerOutput(t *testing.T) {
 		t.Errorf("tags: %v", n)
 	}
 }
+
+// Stream op-order: every output of the history is judged against its own import block; a
+// fragment against the File's import table.
+func TestC18HistOracle(t *testing.T) {
+	p := c18{}
+	paths := []string{"math/rand", "example.com/u/rand"}
+	h := hist.History{
+		{Kind: "newfile", F: 0, A: "p"},
+		{Kind: "render", F: 0}, {Kind: "imports", F: 0},
+		{Kind: "importalias", F: 0, A: "math/rand", B: "."},
+		{Kind: "rcode", F: 0}, {Kind: "imports", F: 0},
+		{Kind: "render", F: 0}, {Kind: "imports", F: 0},
+		{Kind: "imports", F: 0},
+	}
+	c := &Case{Hist: h, Stream: "op-order", Meta: map[string]interface{}{"paths": paths}}
+	w := func(s string) hist.Obs { return hist.Obs{Kind: "write", Out: s} }
+	tab := hist.Obs{Kind: "imports", Imports: []hist.Import{{Path: "math/rand", Name: "rand1"}, {Path: "example.com/u/rand", Name: "rand", Alias: true}}}
+	tab.Imports[0] = hist.Import{Path: "math/rand", Name: "rand1", Alias: true}
+	file := "package p\n\nimport (\n\trand \"example.com/u/rand\"\n\trand1 \"math/rand\"\n)\n\nvar _ = rand.V1_1\nvar _ = rand1.V0_2\n"
+	frag := "var _ = f(rand1.V0_1, rand.V1_2)"
+	good := []hist.Obs{w(file), tab, w(frag), tab, w(file), tab, tab}
+	if m := p.Oracle(c, good); m != "" {
+		t.Fatalf("good history rejected: %s", m)
+	}
+	plain := "package p\n\nimport \"math/rand\"\n\nvar _ = rand.V0_2\n"
+	ptab := hist.Obs{Kind: "imports", Imports: []hist.Import{{Path: "math/rand", Name: "rand"}}}
+	if m := p.Oracle(c, []hist.Obs{w(plain), ptab, w("var _ = rand.V0_1"), ptab, w(plain), ptab, ptab}); m != "" {
+		t.Fatalf("good history (unaliased) rejected: %s", m)
+	}
+	dot := "package p\n\nimport . \"math/rand\"\n\nvar _ = V0_2\n"
+	dtab := hist.Obs{Kind: "imports", Imports: []hist.Import{{Path: "math/rand", Name: ".", Alias: true}}}
+	if m := p.Oracle(c, []hist.Obs{w(dot), dtab, w("var _ = V0_1"), dtab, w(dot), dtab, dtab}); m != "" {
+		t.Fatalf("good history (dot-import) rejected: %s", m)
+	}
+	with := func(base []hist.Obs, k int, o hist.Obs) []hist.Obs {
+		out := append([]hist.Obs{}, base...)
+		out[k] = o
+		return out
+	}
+	pl := []hist.Obs{w(plain), ptab, w("var _ = rand.V0_1"), ptab, w(plain), ptab, ptab}
+	for name, b := range map[string]struct {
+		obs  []hist.Obs
+		want string
+	}{
+		// the seeded shape: the later dot hint is applied to the references of an unaliased import
+		"later render writes the unaliased std path bare": {with(pl, 4, w("package p\n\nimport \"math/rand\"\n\nvar _ = V0_2\n")), "is imported without alias but is not referred to by its real name: it is written as a bare identifier"},
+		"fragment writes the unaliased std path bare":     {with(pl, 2, w("var _ = V0_1")), "fragment rendered with the File (operation 4) against the File's import table: standard-library path \"math/rand\""},
+		"unaliased std path under another name":           {with(pl, 4, w("package p\n\nimport \"math/rand\"\n\nvar _ = rand1.V0_2\n")), "is not referred to by its real name: it is written as rand1.X"},
+		"table registers a wrong name without alias":      {with(pl, 3, hist.Obs{Kind: "imports", Imports: []hist.Import{{Path: "math/rand", Name: "rand1"}}}), "registers standard-library path \"math/rand\" without alias under the name rand1"},
+		"alias not used":                           {with(good, 4, w("package p\n\nimport (\n\trand \"example.com/u/rand\"\n\trand1 \"math/rand\"\n)\n\nvar _ = rand.V1_1\nvar _ = rand.V0_2\n")), "is imported with the alias rand1 but referred to by rand.X"},
+		"two imports bind one name":                {with(good, 4, w("package p\n\nimport (\n\trand \"example.com/u/rand\"\n\t\"math/rand\"\n)\n\nvar _ = rand.V1_1\nvar _ = rand.V0_2\n")), "both bind the name rand"},
+		"dot-import qualified":                     {with(good, 4, w("package p\n\nimport (\n\trand \"example.com/u/rand\"\n\t. \"math/rand\"\n)\n\nvar _ = rand.V1_1\nvar _ = rand1.V0_2\n")), "is imported as . but referred to by rand1.X"},
+		"anonymous import referenced":              {with(good, 4, w("package p\n\nimport (\n\trand \"example.com/u/rand\"\n\t_ \"math/rand\"\n)\n\nvar _ = rand.V1_1\nvar _ = rand1.V0_2\n")), "is imported as _ but referred to by rand1.X"},
+		"import lost":                              {with(good, 4, w("package p\n\nimport rand \"example.com/u/rand\"\n\nvar _ = rand.V1_1\nvar _ = rand1.V0_2\n")), "but not imported"},
+		"user path without alias, name never told": {with(good, 0, w("package p\n\nimport (\n\t\"example.com/u/rand\"\n\trand1 \"math/rand\"\n)\n\nvar _ = rand.V1_1\nvar _ = rand1.V0_2\n")), "a name nothing has told"},
+		"render fails":                             {with(good, 4, hist.Obs{Kind: "fmterr", Out: "x"}), "was not rendered"},
+	} {
+		if m := p.Oracle(c, b.obs); !strings.Contains(m, b.want) {
+			t.Errorf("%s: want %q, got %q", name, b.want, m)
+		}
+	}
+}
+
+// The op-order stream holds on the unchanged tree, every std package is a subject, and every
+// ordered pair of operations occurs for every kind, before and after the first rendering.
+func TestC18OpOrderGenerate(t *testing.T) {
+	p := c18{}
+	cases := c18OpOrderCases(rand.New(rand.NewSource(2)), "quick")
+	subjects := map[string]bool{}
+	n := map[string]int{}
+	for _, c := range cases {
+		if m := p.Oracle(c, hist.NewWorld().Exec(c.Hist)); m != "" {
+			t.Fatalf("oracle fails on the unchanged tree: %s\n%s", m, c.Hist.Sexp())
+		}
+		subjects[c.Meta["paths"].([]string)[0]] = true
+		kind := ""
+		for _, tg := range c.Tags {
+			if strings.HasPrefix(tg, "subject=") {
+				kind = tg
+			}
+		}
+		for _, tg := range c.Tags {
+			if strings.HasPrefix(tg, "order=") || strings.HasPrefix(tg, "after-first-rendering=") || strings.HasPrefix(tg, "before-first-rendering=") {
+				n[kind+" "+tg]++
+			}
+		}
+	}
+	for _, sp := range StdPackages() {
+		if !subjects[sp.Path] {
+			t.Errorf("std package %s is never the subject", sp.Path)
+		}
+	}
+	for _, kind := range []string{"std", "std-collide", "std+user"} {
+		for _, a := range opOrderKinds {
+			for _, b := range opOrderKinds {
+				if n["subject="+kind+" order="+a+"-then-"+b] < 30 {
+					t.Errorf("%s: order %s-then-%s has %d cases", kind, a, b, n["subject="+kind+" order="+a+"-then-"+b])
+				}
+			}
+			if n["subject="+kind+" after-first-rendering="+a] < 50 || n["subject="+kind+" before-first-rendering="+a] < 50 {
+				t.Errorf("%s: %s after/before the first rendering: %d/%d cases", kind, a, n["subject="+kind+" after-first-rendering="+a], n["subject="+kind+" before-first-rendering="+a])
+			}
+		}
+	}
+}
